@@ -25,7 +25,9 @@ LEVEL = "exploration"
 RULE = ("one run = one simulated genuine device (per-run issuer / device / attestation / wallet keys, "
         "UI and signer hashes, UD value, blockchain state; UI message paged 1..4; signer message in "
         "current and legacy framing; SGX: QE auth data 0..1000 bytes, PEM chains of 2..3 certificates) "
-        "taken through the full tool pipeline; class fault-free: every tool must exit 0, every written "
+        "taken through the full tool pipeline (a third of the Ledger runs gather the attestation a second "
+        "time, from the setup certificate or from the previous attestation certificate); class fault-free: "
+        "every tool must exit 0, every written "
         "file must load back to the same dictionary and verification must print exactly the device's "
         "values; class faulted: one device answer altered at a drawn exchange of gathering (bit flip / "
         "byte replaced / truncated / extended), or the root of trust altered, or one stored certificate "
